@@ -1599,7 +1599,8 @@ def run(ck: Check) -> None:
         "evaluations": n_layout + n_meta + len(fev) + len(hev),
         "distinct_nontrivial": len(nontriv),
         "rule": "one evaluation = one distributor layout (constructor + gradient path, one copy) compared with Fsdp.fsdp_init/grad_blocks_param, or one (rank, parameter) of a stub flat-param handle through torch's _get_shard_metadata + compile_fsdp_parameter_metadata compared with the model, or one FSDP cluster scenario (all shard ranks, all steps, shard bits vs the serial implementation on the recovered pieces, block index sets) or one HSDP mesh scenario (all replicas vs FSDP-only run vs serial reference vs the Dist.v model, logs, hang sets) - all decided inside coqc; non-trivial = distinct run scenarios with >=2 shard ranks and a rank holding >=2 recovered pieces, or HSDP with >=2 replicas in a communication group",
-        "exhaustive": "stage L family exhaustive-1: every shape of order<=3 with numel<=%d (plus three order-4 shapes), every 0<=start<=end<=numel, both distributors; the run stages are sampled" % (16 if ck.tier == "thorough" else 10),
+        "exhaustive": False,
+        "exhaustive_part": "stage L family exhaustive-1: every shape of order<=3 with numel<=%d (plus three order-4 shapes), every 0<=start<=end<=numel, both distributors; the run stages are sampled" % (16 if ck.tier == "thorough" else 10),
         "samples": samples,
         "distribution": {
             "layout_cases": hist(lcases, lambda c: c["family"]), "layout_evaluations": n_layout, "layout_thresholds": hist(lcases, lambda c: c["maxdim"]),
